@@ -37,7 +37,11 @@ fn hex_upper(b: &[u8]) -> String {
 pub fn gen_keyfile(rng: &mut Rng) -> (Vec<u8>, Vec<u8>, &'static str) {
     match rng.below(8) {
         0 => { let k = rng.bytes(32); (k.clone(), k, "raw-32-bytes") }
-        1 => { let n = rng.below(200) as usize; let n = if n == 32 { 33 } else { n }; let d = rng.bytes(n); let k = oracle::sha256(&d); (d, k, "hashed-arbitrary-bytes") }
+        1 => {
+            // any other file is hashed: short ones, and (1 in 4) files of several KiB around buffer sizes
+            let n = if rng.chance(1, 4) { *rng.pick(&[4095usize, 4096, 4097, 5000, 8192, 8193, 20_000]) } else { rng.below(200) as usize };
+            let n = if n == 32 { 33 } else { n };
+            let d = rng.bytes(n); let k = oracle::sha256(&d); (d, k, "hashed-arbitrary-bytes") }
         2 => {
             // version 1.00 XML, base64 payload of 32 bytes
             let k = rng.bytes(32);
@@ -333,6 +337,16 @@ pub fn edit_creds(rng: &mut Rng, base: &Creds) -> (Creds, &'static str) {
             // one bit flipped in the key material of a raw 32-byte key file
             match (&mut c.keyfile, &mut c.keyfile_key) {
                 (Some(f), Some(kk)) if f.len() == 32 => { let i = rng.below(32) as usize; f[i] ^= 1 << rng.below(8); *kk = f.clone(); "keyfile-bit-flipped" }
+                (Some(f), Some(kk)) if base.kind == "hashed-arbitrary-bytes" && f.len() > 40 => {
+                    // a hashed key file altered near its end: one bit flipped, a byte appended, the last byte dropped
+                    let how = match rng.below(3) {
+                        0 => { let i = f.len() - 1 - rng.below(8.min(f.len() as u64)) as usize; f[i] ^= 1 << rng.below(8); "keyfile-tail-bit-flipped" }
+                        1 => { f.push(rng.next() as u8); "keyfile-byte-appended" }
+                        _ => { f.pop(); "keyfile-last-byte-dropped" }
+                    };
+                    *kk = if f.len() == 32 { f.clone() } else { oracle::sha256(f) };
+                    how
+                }
                 _ => { c.password = Some(format!("{} ", c.password.clone().unwrap_or_default())); "password-trailing-blank" }
             }
         }
@@ -468,7 +482,8 @@ fn c05(args: &Args, agg: &mut Aggregate) {
                     match rng.below(3) { 0 if bs.len() > 1 => { let i = rng.below(bs.len() as u64 - 1) as usize; bs.swap(i, i + 1); } 1 => { let i = rng.below(bs.len() as u64) as usize; let b = bs[i].clone(); bs.insert(i, b); } _ => { let i = rng.below(bs.len() as u64) as usize; bs.remove(i); } }
                     f.truncate(hl + 64); for b in bs { f.extend_from_slice(&b); } "reorder-blocks" }
                 6 => { // header field edit with the unkeyed SHA-256 recomputed by the attacker
-                    let i = 12 + rng.below((hl - 12) as u64) as usize; f[i] ^= 1 << rng.below(8);
+                    // (the version words at offsets 8..12 belong to the authenticated header as well)
+                    let i = if rng.chance(1, 4) { 8 + rng.below(4) as usize } else { 12 + rng.below((hl - 12) as u64) as usize }; f[i] ^= 1 << rng.below(8);
                     let h = oracle::sha256(&f[..hl]); f[hl..hl + 32].copy_from_slice(&h); "header-edit-sha-recomputed" }
                 7 => { let n = rng.range(1, 80) as usize; f.extend_from_slice(&rng.bytes(n)); "append-tail" }
                 8 => { // multi-byte edit inside the ciphertext
@@ -522,7 +537,7 @@ fn c05(args: &Args, agg: &mut Aggregate) {
                 f[i] ^= rng.range(1, 255) as u8;
                 (hl + 64, "sweep-block-tag")
             } else {
-                let i = 12 + rng.below((hl - 12) as u64) as usize;
+                let i = if rng.chance(1, 4) { 8 + rng.below(4) as usize } else { 12 + rng.below((hl - 12) as u64) as usize };
                 f[i] ^= 1 << rng.below(8);
                 let h = oracle::sha256(&f[..hl]);
                 f[hl..hl + 32].copy_from_slice(&h);
